@@ -77,7 +77,7 @@ class _ObjectFamily(object):
         self.all_versions[obj["modified"]] = obj
         if (
             self.latest_version is None or
-            obj["modified"] > self.latest_version["modified"]
+            obj["modified"] >= self.latest_version["modified"]
         ):
             self.latest_version = obj
 
